@@ -8,6 +8,7 @@ import random
 import warnings
 
 from common import import_mosaik
+from sched_corr import common_len as _cl
 
 mosaik = import_mosaik()
 from mosaik.exceptions import ScenarioError  # noqa: E402
@@ -132,4 +133,107 @@ def monitor_c11(rng: random.Random, tier: str) -> tuple[list, int]:
                     vio.append({"law": "delay tiers: shift on tier 0, weak on the last shared tier", "delay": repr(d), **case})
         finally:
             sw.close_world(w)
+    return vio, n
+
+
+# ------------------------------------------------------------------ C06
+
+def simple_cycles(n, hops):
+    """All simple cycles (as vertex lists without the repeated end) over vertices 0..n-1 with edges `hops`."""
+    out = []
+
+    def dfs(start, v, path, seen):
+        for (a, b) in hops:
+            if a != v:
+                continue
+            if b == start:
+                out.append(list(path))
+            elif b not in seen and b > start:
+                dfs(start, b, path + [b], seen | {b})
+    for s in range(n):
+        dfs(s, s, [s], {s})
+    return out
+
+
+def unresolved_cycles(g):
+    """Graph-level specification of C06: the cycles no connection resolves."""
+    pl = g["placement"]
+    n = len(pl)
+    valid = [c for c in g["conns"] if not (c["kind"] == "weak" and common_len(pl[c["src"]], pl[c["dst"]]) == 0)]
+    hops = sorted(set((c["src"], c["dst"]) for c in valid))
+    res = []
+    for cyc in simple_cycles(n, hops):
+        k = len(cyc)
+        ok = True
+        for i in range(k):
+            a, b = cyc[i], cyc[(i + 1) % k]
+            through = False
+            for c in valid:
+                if c["src"] != a or c["dst"] != b:
+                    continue
+                if c["kind"] in ("plain", "async"):
+                    through = True
+                elif c["kind"] == "weak":
+                    cl = common_len(pl[a], pl[b])
+                    inside = all(len(pl[v]) >= cl and pl[v][:cl] == pl[a][:cl] for v in cyc)
+                    if not inside:
+                        through = True
+            if not through:
+                ok = False
+                break
+        if ok:
+            res.append(cyc)
+    return res
+
+
+def nonuniform_graph(g):
+    """D7 class: two paths between the same pair with different cutoffs."""
+    pl = g["placement"]
+    n = len(pl)
+    INF = 10 ** 6
+    lo = [[INF] * n for _ in range(n)]
+    hi = [[0] * n for _ in range(n)]
+    for c in g["conns"]:
+        cut = common_len(pl[c["src"]], pl[c["dst"]]) + 1
+        if c["kind"] == "weak" and cut == 1:
+            continue
+        a, b = c["src"], c["dst"]
+        lo[a][b] = min(lo[a][b], cut)
+        hi[a][b] = max(hi[a][b], cut)
+    for _ in range(n + 1):
+        for k in range(n):
+            for i in range(n):
+                for j in range(n):
+                    if lo[i][k] < INF and lo[k][j] < INF:
+                        lo[i][j] = min(lo[i][j], min(lo[i][k], lo[k][j]))
+                        hi[i][j] = max(hi[i][j], min(hi[i][k], hi[k][j]))
+    return any(lo[i][j] < INF and lo[i][j] != hi[i][j] for i in range(n) for j in range(n))
+
+
+def monitor_c06(suite) -> tuple[list, int]:
+    vio = []
+    n = 0
+    for g, res, path in suite.graphs:
+        n += 1
+        bad = unresolved_cycles(g)
+        d7 = nonuniform_graph(g)
+        fid = "D7-reentrant-paths" if d7 else None
+        if res == "AssertionError":
+            vio.append({"law": "cycle check fails with an internal error", "graph": g, "finding": fid})
+            continue
+        if (res == "cycle") != bool(bad):
+            vio.append({"law": "rejected exactly when an unresolved cycle exists", "graph": g, "verdict": res, "unresolved_cycles": bad, "finding": fid})
+            continue
+        if res == "cycle":
+            ok = len(path) >= 2 and path[0] == path[-1]
+            cyc = path[:-1] if ok else []
+            # the reported closed walk must consist of unresolved hops
+            if ok:
+                k = len(cyc)
+                rot = lambda c: min(c[i:] + c[:i] for i in range(len(c)))  # noqa: E731
+                simple = len(set(cyc)) == len(cyc)
+                if simple and rot(cyc) not in [rot(b) for b in bad]:
+                    ok = False
+            if not ok:
+                vio.append({"law": "the cycle named in the error is a real unresolved cycle", "graph": g, "reported": path, "unresolved_cycles": bad, "finding": fid})
     return vio, n
